@@ -179,6 +179,23 @@ class ResetDetachCheck(SeqCheck):
 for pid, pred in (('C11', is_c11), ('C12', is_c12)):
     CHECKS[pid] = ResetDetachCheck(pid, pred, SEQ_TEXT % pid + ' Under concurrency: theorems on the release/acquire machine RAx (race freedom, never backwards, published <= local); '
                                    'tie: S-script, executions of the extracted machine replayed on the real crate with OS threads.')
+def c18_noalloc(ctx, seqrun, stats, divs):
+    """the configuration without `alloc` (async splits borrow a stack buffer and can be repeated): property-level probe, see harness-noalloc"""
+    tdir = os.path.join(common.BUILD, 'cargo-noalloc')
+    with common.Lock('cargo-noalloc'):
+        rc, out = common.sh(['cargo', 'build', '--offline'], cwd=os.path.join(common.ROOT, 'harness-noalloc'), env={'CARGO_TARGET_DIR': tdir})
+    if rc != 0:
+        ctx.violation('the crate does not build with --no-default-features --features async (probe harness-noalloc)', out[-3000:], no_input=True); return
+    n = 500 if ctx.tier == 'quick' else 20000
+    rc, out = common.sh([os.path.join(tdir, 'debug', 'mrb-harness-noalloc'), str(ctx.seed), str(n)], timeout=1800)
+    m = re.search(r'ok sessions=(\d+)', out)
+    if m:
+        ctx.notes['noalloc_probe'] = {'sessions': int(m.group(1))}; stats.histories += int(m.group(1)); return
+    mm = re.search(r'MISMATCH (.*)', out)
+    what = mm.group(1) if mm else 'probe failed: ' + out[-600:]
+    ctx.violation('without the alloc feature (stack buffer, async / sync splits repeated): ' + what.split(': ', 1)[-1][:300],
+                  f'## replay: .build/cargo-noalloc/debug/mrb-harness-noalloc {ctx.seed} {n}\n## sessions: {what}\n', no_input=(mm is None))
+
 def c04_safe_ops(ctx, seqrun, stats, divs):
     """the sentence `no safe operation moves an iterator past the iterator ahead`: safe methods whose contract fails"""
     for key, lst in sorted(stats.safe_breaks.items()):
@@ -188,6 +205,7 @@ def c04_safe_ops(ctx, seqrun, stats, divs):
                           '\n'.join([h, cfg] + ops) + f'\n## {key}: the last operation is a safe fn, yet its position contract does not hold in this state\n')
     ctx.notes['safe_ops_off_contract'] = {k: len(v) for k, v in stats.safe_breaks.items()}
 CHECKS['C04'].extra = c04_safe_ops
+CHECKS['C18'].extra = c18_noalloc
 for pid in ('C01', 'C04', 'C05', 'C06', 'C11', 'C12'):
     CHECKS[pid].propfiles = [f'Props/{pid}.v', 'Props/KTie.v']    # K-tie: kernels translated from the source on every run
 for pid in ('C06', 'C11', 'C12'):
